@@ -2217,6 +2217,12 @@ func buildResponseBodyType(body, att *expr.AttributeExpr, loc *codegen.Location,
 				}
 				validateRef = fmt.Sprintf("err = Validate%s(%s)", varname, target)
 			}
+		} else if !svr && usedByAttributeTypes(ut) {
+			// The body of a viewed result is validated once converted to
+			// the views type, however the validation code of the types
+			// used to define its attributes calls the function that
+			// validates the body when the types are mutually recursive.
+			validateDef = codegen.ValidationCode(body, ut, httpctx, true, expr.IsAlias(body.Type), false, "body")
 		}
 	} else if !expr.IsPrimitive(body.Type) && mustInit {
 		// response body is an array or map type.
@@ -2786,6 +2792,21 @@ func refersToSelf(ut expr.UserType) bool {
 		}
 	})
 	return found
+}
+
+// usedByAttributeTypes returns true if one of the user types used to define
+// the attributes of the given user type has itself an attribute of that type.
+func usedByAttributeTypes(ut expr.UserType) bool {
+	var used bool
+	collectUserTypes(ut.Attribute().Type, func(aut expr.UserType) {
+		if aut.Name() == ut.Name() {
+			return
+		}
+		collectUserTypes(aut.Attribute().Type, func(t expr.UserType) {
+			used = used || t.Name() == ut.Name()
+		}, map[string]struct{}{aut.ID(): {}})
+	})
+	return used
 }
 
 // collectUserTypes traverses the given data type recursively and calls back the
